@@ -265,7 +265,14 @@ func (e *Engine) typeInv(t types.Type, x string) string {
 			cs = append(cs, e.typeInv(f.Type(), app(si.Sel[i], x)))
 		}
 		return and(cs...)
-	case *types.Pointer, *types.Map, *types.Chan:
+	case *types.Pointer:
+		if isStruct(u.Elem()) {
+			// objects of different struct types live at different locations
+			e.d.add("loctype", "(declare-fun loctype (Int) Int)")
+			return fmt.Sprintf("(and (<= 0 %s) (=> (not (= %s 0)) (= (loctype %s) %d)))", x, x, x, e.typeTag(u.Elem()))
+		}
+		return "(<= 0 " + x + ")"
+	case *types.Map, *types.Chan:
 		return "(<= 0 " + x + ")"
 	case *types.Interface:
 		return and("(<= 0 (i_tag "+x+"))", implies("(= (i_tag "+x+") 0)", "(= (i_ref "+x+") 0)"))
